@@ -124,7 +124,7 @@ def count_statements(prog):
 # ------------------------------------------------------------------------------------------------
 
 class Gen:
-    def __init__(self, d, n_flows=None, instant_end=False, allow_vars=True, allow_actions=True, allow_groups=True, allow_when=True, max_body=4, rich_values=False):
+    def __init__(self, d, n_flows=None, instant_end=False, allow_vars=True, allow_actions=True, allow_groups=True, allow_when=True, max_body=4, rich_values=False, action_scope_bias=False, finishing_main=False):
         self.d = d
         self.n = n_flows if n_flows is not None else d.randint(2, 6, "nflows")
         self.instant_end = instant_end
@@ -134,6 +134,8 @@ class Gen:
         self.allow_when = allow_when
         self.max_body = max_body
         self.rich_values = rich_values
+        self.action_scope_bias = action_scope_bias
+        self.finishing_main = finishing_main
         self.uid = 0
         self.activated = set()
 
@@ -194,11 +196,11 @@ class Gen:
             kinds.append(("action", 4))
         kinds += [("start_flow", 2), ("await_flow", 2)]
         if self.allow_when and depth < 2:
-            kinds.append(("when", 2))
+            kinds.append(("when", 6 if self.action_scope_bias else 2))
         if self.allow_vars:
             kinds += [("assign", 1), ("if", 1 if depth < 2 else 0), ("while", 1 if depth < 1 else 0)]
         if self.allow_groups:
-            kinds.append(("group", 1))
+            kinds.append(("group", 4 if self.action_scope_bias else 1))
         if self.rich_values:
             kinds += [("show", 4), ("refshow", 2)]
         kinds.append(("abort", 0.4))
@@ -219,10 +221,14 @@ class Gen:
             ncase = d.randint(1, 2, key, "ncase")
             cases = []
             for c in range(ncase):
-                cond_kind = d.weighted([("ev", 3), ("flow", 1)], key, "ck", c)
+                cond_kind = d.weighted([("ev", 3), ("flow", 1), ("action", (6 if self.action_scope_bias else 1.5) if self.allow_actions else 0)], key, "ck", c)
                 tgt = self.flow_ref(i, (key, "wf", c)) if cond_kind == "flow" else None
                 if tgt:
                     cond = tgt
+                elif cond_kind == "action":
+                    # an action started inside the when scope: it is stopped when another case wins
+                    name, par = d.choice(ACTIONS, key, "wact", c)
+                    cond = '%s(%s="%s")' % (name, par, self.fresh("s"))
                 else:
                     w = self.wait_external((key, "wc", c))
                     cond = "%s(%s)" % (w["ev"], render_args(w["args"]))
@@ -239,6 +245,17 @@ class Gen:
             v = "$i%d" % depth
             return [{"k": "assign", "var": v, "expr": "0"},
                     {"k": "while", "cond": "%s < %d" % (v, d.randint(1, 2, key, "iters")), "body": [self.wait_external((key, "ww")), self.marker((key, "wm")), {"k": "assign", "var": v, "expr": "%s + 1" % v}]}]
+        if k == "group" and self.allow_actions and d.chance(0.8 if self.action_scope_bias else 0.4, key, "agroup"):
+            # await-group with actions (and optionally a flow): the scope stops the losers of an or-group
+            op = d.choice(["and", "or", "or"], key, "gop")
+            leaves = []
+            for j in range(d.randint(2, 3, key, "ng")):
+                name, par = d.choice(ACTIONS, key, "gact", j)
+                leaves.append('%s(%s="%s")' % (name, par, self.fresh("s")))
+            tgt = self.flow_ref(i, (key, "gflow")) if d.chance(0.3, key, "gf") else None
+            if tgt:
+                leaves[-1] = tgt
+            return [{"k": "group", "op": "await", "formula": {"op": op, "args": leaves}}]
         if k == "group":
             op = d.choice(["and", "or"], key, "gop")
             a, b = self.wait_external((key, "ga")), self.wait_external((key, "gb"))
@@ -297,7 +314,12 @@ class Gen:
                     pos = len([s for s in b if s["k"] == "activate_flow"])
                     b.insert(pos, self.wait_external(("patch", i)))
         main_body = [{"k": how, "flow": tgt} for how, tgt in main_targets]
-        main_body.append({"k": "match", "ev": "Never", "args": {}})
+        if self.finishing_main and d.chance(0.25, "mainends"):
+            # the main flow finishes (after an event): everything it started stops, the story restarts on the next event
+            main_body.append(self.wait_external("mainwait"))
+            main_body.append(self.marker("mainmark"))
+        else:
+            main_body.append({"k": "match", "ev": "Never", "args": {}})
         flows.append({"name": "main", "body": main_body})
         for i in range(self.n):
             fl = {"name": "f%d" % i, "body": bodies[i]}
